@@ -18,6 +18,7 @@ Definition fm := list (wvals * Z).   (* a front dict in insertion order *)
 
 Inductive case :=
 | CSort (pop : list wvals) (calls : list call)
+        (after : list nat) (wafter : list wvals)   (* the caller's list / fitnesses after all the calls *)
 | CIsDom (a b : wvals) (obs : bool)
 | CMedian (keys : list Z) (obs2 : Z)                      (* observed 2*median *)
 | CSplitA (fs : list wvals) (obj : Z) (ob ow : list wvals)
@@ -57,7 +58,8 @@ Definition fuel_for (a b : list wvals) (obj : Z) : nat := log_fuel (length a + l
 
 Definition check (c : case) : bool :=
   match c with
-  | CSort ws calls => forallb (check_call (mkpop ws)) calls
+  | CSort ws calls after wafter =>
+      forallb (check_call (mkpop ws)) calls && nl_eqb after (seq 0 (length ws)) && wl_eqb wafter ws
   | CIsDom a b obs => Bool.eqb (is_dominated a b) obs
   | CMedian keys obs2 => median2 keys =? obs2
   | CSplitA fs obj ob ow => let '(b, w) := splitA fs obj in wl_eqb b ob && wl_eqb w ow
